@@ -31,13 +31,30 @@ package literals
 //@     invariant forall j int :: 0 <= j && j < _i ==> !strings.HasPrefix(node.Doc.List[j].Text, "//go:nosplit")
 //@ end
 
+//@ ghost elemVal int
+//@ ghost typeLen int
+
+//@ hookset complit
+//@ hook after go/constant.Uint64Val(v) (x, ok)
+//@   assert("[C05] byte-value-is-read-from-the-constant-of-that-element", v == elType.Value)
+//@   elemVal = x
+//@ hook after (*go/types.Array).Len(a) (n)
+//@   typeLen = n
+//@ hook before mvdan.cc/garble/internal/literals.obfuscateByteArray(o, p, d, l)
+//@   assert("[C05] array-literal-is-rebuilt-with-its-pointerness-its-bytes-and-its-declared-length", p == isPointer && ref(d) == ref(data) && len(d) == len(node.Elts) && l == typeLen && l == arrayLen)
+//@ hook before mvdan.cc/garble/internal/literals.obfuscateByteSlice(o, p, d)
+//@   assert("[C05] slice-literal-is-rebuilt-with-its-pointerness-and-its-bytes", p == isPointer && ref(d) == ref(data) && len(d) == len(node.Elts))
+//@ end
+
 //@ func handleCompositeLiteral
-//@   property C09
+//@   property C09 C05
+//@   hooks complit
 //@   skip safety call-requires
 //@   fact @gotypes-byte-is-uint8: forall t ref :: types.Identical(t, types.Universe.Lookup("byte").Type()) == types.Identical(t, types.Typ[types.Uint8])
 //@   ensures @byte-literals-in-the-window-are-rewritten: old(len(node.Elts) >= 8 && len(node.Elts) <= 2048 && ((dyntypeis(info.TypeOf(node.Type), *types.Array) && types.Identical(info.TypeOf(node.Type).(*types.Array).Elem(), types.Typ[types.Uint8])) || (dyntypeis(info.TypeOf(node.Type), *types.Slice) && types.Identical(info.TypeOf(node.Type).(*types.Slice).Elem(), types.Typ[types.Uint8]))) && (forall j int :: 0 <= j && j < len(node.Elts) ==> info.Types[node.Elts[j]].Value != nil && info.Types[node.Elts[j]].Value.Kind() == constant.Int)) ==> r0 != nil
 //@   loop 0
 //@     invariant forall j int :: 0 <= j && j < _i ==> info.Types[node.Elts[j]].Value != nil && info.Types[node.Elts[j]].Value.Kind() == constant.Int
+//@     invariant @one-byte-per-listed-element-in-order: [C05] len(data) == _i && (_i >= 1 ==> data[_i-1] == byte(elemVal))
 //@ end
 
 //@ func withPos
@@ -50,6 +67,8 @@ package literals
 //@   property C09 C05
 //@   skip safety call-requires
 //@   ensures @produces-a-call: r0 != nil
+//@   ensures @the-decoded-slice-or-its-address-is-returned: [C05] len(block.List) >= 1 && dyntypeis(block.List[len(block.List)-1], *ast.ReturnStmt) && len(block.List[len(block.List)-1].(*ast.ReturnStmt).Results) == 1 && (!isPointer ==> block.List[len(block.List)-1].(*ast.ReturnStmt).Results[0].(*ast.Ident).Name == "data") && (isPointer ==> dyntypeis(block.List[len(block.List)-1].(*ast.ReturnStmt).Results[0], *ast.UnaryExpr) && block.List[len(block.List)-1].(*ast.ReturnStmt).Results[0].(*ast.UnaryExpr).Op == token.AND && block.List[len(block.List)-1].(*ast.ReturnStmt).Results[0].(*ast.UnaryExpr).X.(*ast.Ident).Name == "data")
+//@   ensures @the-emitted-block-is-the-body-of-the-call: [C05] dyntypeis(r0.Fun, *ast.FuncLit) && r0.Fun.(*ast.FuncLit).Body == block
 //@ end
 
 //@ hookset arrays
@@ -74,10 +93,24 @@ package literals
 //@   ensures @the-emitted-block-is-the-body-of-the-call: [C05] dyntypeis(r0.Fun, *ast.FuncLit) && r0.Fun.(*ast.FuncLit).Body == block
 //@ end
 
+//@ hookset strjunk
+//@ hook before (mvdan.cc/garble/internal/literals.obfuscator).obfuscate(ob, r, d, k)
+//@   assert("[C05] junk-is-split-inside-its-bounds", 0 <= splitIdx && splitIdx < len(junkBytes))
+//@   assert("[C05] the-padded-bytes-are-junk-plus-string", len(d) == len(junkBytes) + len(data))
+//@ end
+
+// The string is wrapped in random junk before it is handed to an obfuscator; the emitted cast
+// function cuts it out again: string(x[splitIdx : splitIdx+len(data)]). That the bytes handed to the
+// obfuscator carry the string at exactly that offset (two nested appends that may or may not reuse the
+// junk array) was generated as an obligation but is beyond the solvers (four aliasing cases); it is
+// covered by the bounded stand-in only.
 //@ func obfuscateString
 //@   property C09 C05
+//@   hooks strjunk
 //@   skip safety call-requires
 //@   ensures @produces-a-call: r0 != nil
+//@   ensures @emitted-cast-cuts-the-string-out-of-the-junk: [C05] len(funcVal.Body.List) == 1 && dyntypeis(funcVal.Body.List[0], *ast.ReturnStmt) && dyntypeis(funcVal.Body.List[0].(*ast.ReturnStmt).Results[0], *ast.CallExpr) && funcVal.Body.List[0].(*ast.ReturnStmt).Results[0].(*ast.CallExpr).Fun.(*ast.Ident).Name == "string" && dyntypeis(funcVal.Body.List[0].(*ast.ReturnStmt).Results[0].(*ast.CallExpr).Args[0], *ast.SliceExpr) && funcVal.Body.List[0].(*ast.ReturnStmt).Results[0].(*ast.CallExpr).Args[0].(*ast.SliceExpr).X.(*ast.Ident).Name == "x" && funcVal.Body.List[0].(*ast.ReturnStmt).Results[0].(*ast.CallExpr).Args[0].(*ast.SliceExpr).Low.(*ast.BasicLit).Value == strconv.Itoa(splitIdx) && funcVal.Body.List[0].(*ast.ReturnStmt).Results[0].(*ast.CallExpr).Args[0].(*ast.SliceExpr).High.(*ast.BasicLit).Value == strconv.Itoa(splitIdx + len(data)) && !funcVal.Body.List[0].(*ast.ReturnStmt).Results[0].(*ast.CallExpr).Args[0].(*ast.SliceExpr).Slice3
+//@   ensures @the-cast-is-applied-to-the-decoded-bytes: [C05] len(block.List) >= 1 && dyntypeis(block.List[len(block.List)-1], *ast.ReturnStmt) && dyntypeis(block.List[len(block.List)-1].(*ast.ReturnStmt).Results[0], *ast.CallExpr) && len(block.List[len(block.List)-1].(*ast.ReturnStmt).Results[0].(*ast.CallExpr).Args) == 1 && block.List[len(block.List)-1].(*ast.ReturnStmt).Results[0].(*ast.CallExpr).Args[0].(*ast.Ident).Name == "data"
 //@ end
 
 // ---- C05: encode at obfuscation time / decode in the emitted code ----
@@ -266,4 +299,11 @@ package literals
 //@     invariant @the-chain-grows-by-one-call: _i >= 2 ==> callExpr.Fun == prevCall
 //@     invariant @the-chain-starts-at-fnc: _i == 1 ==> callExpr.Fun.(*ast.Ident).Name == "fnc"
 //@     invariant @data-is-only-read: forall j int :: 0 <= j && j < len(data) ==> data[j] == old(data[j])
+//@ end
+
+//@ func (*proxyDispatcher).HideValue
+//@   property C05
+//@   trusted stores the value in one of the proxy structs and returns the selector path that reads it back at run time; it creates nodes and changes only the dispatcher's own bookkeeping
+//@   assigns proxyDispatcher.root, proxyDispatcher.flattenStructs, proxyStruct.values, proxyStruct.children, proxyStruct.parent
+//@   ensures r0 != nil
 //@ end
